@@ -13,7 +13,7 @@
    exact_errors = false agrees with the reference semantics up to merging of adjacent character tokens;
    (b) the Rust tokenizer agrees with the chunked-queue interpreter; (c) the tree-builder half. *)
 From Coq Require Import List NArith Bool.
-From HV Require Import TokIR.IR TokIR.Interp TokIR.Checks TokIR.Chunk TokIR.QueueSim Gen.GenHtmlTok Inst.InstHtmlTok Inst.InstChunk.
+From HV Require Import TokIR.IR TokIR.Interp TokIR.Checks TokIR.Chunk TokIR.QueueSim TokIR.ChunkInv TokIR.ChunkExec Gen.GenHtmlTok Inst.InstHtmlTok Inst.InstChunk.
 Import ListNotations.
 
 Theorem C03_reference_semantics_chunk_independent_partial :
@@ -72,3 +72,40 @@ Theorem C03_chunked_interpreter_is_reference_exact :
   snd r = snd r'.
 Proof. exact (chunked_is_reference_exact html_flavour html_table). Qed.
 Print Assumptions C03_chunked_interpreter_is_reference_exact.
+
+(* the chunk-independence theorem at the level of the EXECUTABLE driver (TokIR/ChunkExec.v): two chunkings of one input
+   through drive_flat - push each chunk, feed until done with script pauses injecting text, then end() - reach the same
+   final machine (tokens with parse errors and line numbers, configuration) and the same result of end(), whenever
+   every feed call of both runs ended regularly (done / script / encoding indicator, i.e. no panic value and no fuel
+   exhaustion) and the BOM flag is clear.  With C03_chunked_interpreter_is_reference_exact the same holds of
+   drive_chunked, the interpreter that runs against the Rust code, in exact mode. *)
+Theorem C03_driver_chunking_independent :
+  forall simd ent c1 sk fuel inj cs1 cs2 (m : mach hstate (list N)),
+  discard_bom (mc m) = false ->
+  all_nonempty cs1 -> all_nonempty cs2 -> cs1 <> [] -> cs2 <> [] -> concat cs1 = concat cs2 ->
+  all_done (tl (snd (drive_flat html_flavour true html_table simd ent c1 sk fuel inj cs1 m []))) ->
+  all_done (tl (snd (drive_flat html_flavour true html_table simd ent c1 sk fuel inj cs2 m []))) ->
+  fst (drive_flat html_flavour true html_table simd ent c1 sk fuel inj cs1 m []) =
+  fst (drive_flat html_flavour true html_table simd ent c1 sk fuel inj cs2 m []) /\
+  hd SSuspend (snd (drive_flat html_flavour true html_table simd ent c1 sk fuel inj cs1 m [])) =
+  hd SSuspend (snd (drive_flat html_flavour true html_table simd ent c1 sk fuel inj cs2 m [])).
+Proof. exact html_drive_chunking_independent. Qed.
+Print Assumptions C03_driver_chunking_independent.
+
+(* non-vacuity of the driver theorem: "<a b='c'>x</a>&amp;" with a script pause on </a> injecting "y", cut in two different
+   ways; both runs end every feed regularly (vm_compute), so the theorem applies - and the outcome is checked too *)
+Definition C03_sk : sinkcfg := {| sk_resp := [([97]%N, RespScript)]; sk_foreign := false |}.
+Definition C03_init : mach hstate (list N) := mkmach (init_cfg HData None false) [] [] 0%N.
+Definition C03_cs1 : list (list N) := [[60; 97; 32; 98; 61; 39; 99]; [39; 62; 120; 60; 47; 97; 62; 38; 97; 109; 112; 59]]%N.
+Definition C03_cs2 : list (list N) := [[60]; [97; 32; 98; 61; 39; 99; 39; 62; 120; 60; 47]; [97; 62; 38; 97]; [109; 112; 59]]%N.
+Definition C03_drive cs := drive_flat html_flavour true html_table (simd_first_guard, simd_tail_stop, simd_tail_newline)
+                                      (fun _ => None) (fun _ => None) C03_sk 200 [121]%N cs C03_init [].
+Definition all_done_b (l : list sres) : bool :=
+  forallb (fun r => match r with SSuspend | SScript | SEncoding => true | _ => false end) l.
+Example C03_driver_nonvacuous :
+  concat C03_cs1 = concat C03_cs2 /\
+  all_done_b (tl (snd (C03_drive C03_cs1))) = true /\ all_done_b (tl (snd (C03_drive C03_cs2))) = true /\
+  existsb (fun r => match r with SScript => true | _ => false end) (snd (C03_drive C03_cs1)) = true /\
+  fst (C03_drive C03_cs1) = fst (C03_drive C03_cs2) /\
+  length (mout (fst (C03_drive C03_cs1))) = 11%nat.
+Proof. vm_compute. repeat split; reflexivity. Qed.
